@@ -1,5 +1,6 @@
 /- OP suite: one instruction of the abstract machine on two operand values -/
 import Garnish.Abs.Machine
+import Garnish.Abs.Casts
 import Garnish.Driver.ValIO
 namespace Garnish.Driver
 open Garnish Gen Garnish.Abs
@@ -10,6 +11,11 @@ def hostOfMode (mode : String) (simple : Bool) : Host Float :=
   else Host.declining
 
 def showCall : HostCall Float → String
+  -- `type_cast` hands the host the TARGET type as the right operand's type; the harness log prints a unit-typed
+  -- operand as `U` without looking at the address
+  | .defer .applyType l r =>
+    let rt := castTarget r
+    s!"defer(ApplyType,{l.typeOf.name}:{showVal l},{rt.name}:{if rt == .unit then "U" else showVal r})"
   | .defer op l r => s!"defer({op.name},{l.typeOf.name}:{showVal l},{r.typeOf.name}:{showVal r})"
   | .resolve s => s!"resolve({s})"
   | .apply n a => s!"apply({n},{showVal a})"
@@ -42,7 +48,16 @@ def opCase (f : List String) : String :=
           let top := match s.regs with | v :: _ => showVal v | [] => "-"
           let delta : Int := (s.regs.length : Int)
           s!"ok {top} regs={delta} next={s.pc} vals={s.vals.length} frames={s.frames.length} log={showTrace (mode == "absent") (store == "simple") s.trace}"
-        match step hwFloatOps (hostOfMode mode (store == "simple")) P s0 with
+        -- ApplyType: the machine's step does not know casts (Abs/Machine.lean is frozen); the suite applies
+        -- `castOp` (Abs/Casts.lean) to (left = A, right = B) and pushes the outcome the way `step` does for
+        -- every other binary instruction.  Float → text is not reproduced (cases skipped by opsuite).
+        let env : CastEnv Float := ⟨if store == "simple" then .simple else .basic, fun f => (toString f).toList.map Char.toNat⟩
+        let res : StepRes Float :=
+          match ins, va, vb with
+          | .applyType, some l, some r =>
+            seqNext P s0 (pushOut (hostOfMode mode (store == "simple")) { s0 with regs := [] } (castOp hwFloatOps env l r))
+          | _, _, _ => step hwFloatOps (hostOfMode mode (store == "simple")) P s0
+        match res with
         | .running s => out s
         | .halted s => out s
         | .err e => "err " ++ errName e
